@@ -189,8 +189,16 @@ def gen_popcounts(rng, tier):
         ln.append(("hw64 %d %s" % (len(w), " ".join(map(str, w)))).rstrip())
     sizes = list(range(1, 131)) + [160, 192, 224, 256, 257, 1023, 1024, 1025]
     for size in sizes:
-        for dens in ([0.5] if q else [0.1, 0.5, 0.9, 1.0]):
+        for dens in ([0.5, 1.0] if q else [0.1, 0.5, 0.9, 1.0]):
             bits = [i for i in range(size) if rng.random() < dens]
+            ln.append(("hwarr %d %d %s" % (size, len(bits), " ".join(map(str, bits)))).rstrip())
+    # long arrays (thousands of bits): random, all ones, and one byte lane of every 64-bit word full (what a
+    # lane-wise accumulation overflows on), at lengths around the powers of two
+    for size in ([2047, 2048, 2049, 4100, 8192] if q else [2016, 2047, 2048, 2049, 2080, 4095, 4096, 4100, 8191, 8192, 8200, 16384]):
+        pats = [[i for i in range(size) if rng.random() < 0.5], list(range(size))]
+        for lane in ([rng.randrange(8)] if q else range(8)):
+            pats.append([i for i in range(size) if (i % 64) // 8 == lane or rng.random() < 0.05])
+        for bits in pats:
             ln.append(("hwarr %d %d %s" % (size, len(bits), " ".join(map(str, bits)))).rstrip())
     # 25 calls per execution (short replay files)
     return [("popcounts", ln[i:i + 25]) for i in range(0, len(ln), 25)], len(ln)
@@ -340,6 +348,18 @@ def make_execs(bdir, tier, rng):
     execs += gen_random(rng, 150 if q else 2000, 40, edge, False, "random-element-ops")
     execs += gen_random(rng, 150 if q else 2000, 40, small, True, "random-with-copies")
     execs += gen_random(rng, 150 if q else 2000, 40, edge, True, "random-with-copies")
+    # rows of thousands of columns (the word-array popcount behind row_weight_ignore_first): all ones, byte lanes, random
+    for C in ([2100, 4160] if q else [2048, 2100, 4160, 8200]):
+        for pat in range(3):
+            cols = list(range(C)) if pat == 0 else [c for c in range(C) if (c % 64) // 8 == 3 or rng.random() < 0.05] if pat == 1 else \
+                   [c for c in range(C) if rng.random() < 0.5]
+            cs = set(cols)
+            # the wide matrix is built in one operation: column j of matrix 1 := column 1 (a one in row 1) or column 0 (empty) of matrix 0
+            ln = ["dalloc 0 2 2", "dset 0 1 1 1", "dalloc 1 2 %d" % C,
+                  "dcopycols 0 1 %d %s" % (C, " ".join("1" if c in cs else "0" for c in range(C))),
+                  "drw 1 1", "drwi 1 1 0", "drwi 1 1 32", "drwi 1 1 %d" % (32 * rng.randrange(1, C // 64)), "drw 1 0", "dempty 1 0",
+                  "dcw 1 %d" % (C - 1), "dfree 1", "dfree 0"]
+            execs.append(("wide-rows", ln))
     sim, simstates = from_simulation(bdir, 20 if q else 300, 40, 60 if q else 1500)
     execs += sim
     nmat = len(execs)
